@@ -95,6 +95,9 @@ theorem C18_fact_nothing_forgotten : Facts.client_last_chunk_assignments =
 /-- after the stop signal `run.Run` ends the inputs first, then the pipelines (which save what is pending), and only then the
 metrics listener, whose `Shutdown` waits for active requests without a limit -/
 theorem C18_fact_run_order : Facts.stop_run_order = ["shutdownInputs", "orchestrator.Shutdown", "msrv.Shutdown"] := by decide
+/-- a stop request that arrives while a connection attempt is in progress does not wait for it (the attempt has its own,
+much longer timeout): in the transition system `workerFinal` needs no session and no connect action -/
+theorem C18_fact_stop_during_connect : Facts.stop_connect_branch = ["return leftovers, noReconnect"] := by decide
 /-- every connection of the listener has a closer goroutine waiting on the stop request -/
 theorem C18_fact_listener_closers : Facts.stop_listener_closers =
     ["run: AnyAwaitables(listener.stopRequest, abortListener) -> socket.Close", "launchConnectionCloser: AnyAwaitables(listener.stopRequest, abortConn) -> conn.Close"] := by decide
